@@ -8,7 +8,7 @@ MC = "explicit-state model checking of the implementation (stateless DFS with st
 BE = "bounded exhaustive enumeration of inputs/histories against a reference model (small-scope model checking of the real function)"
 T = {
  "C01": (E1, "model_checking", "every schedule of every graph <=3 targets (+named 4-target shapes), one-shot and watch with 1-2 notifications: at every process start all dependency leaves finished/started and the last word consumed from each direct dependency is Ok", "virtual processes/watcher; bounds: graphs <=3 (+named 4), notification budget <=2", MC, "§6 C01"),
- "C04": (E1, "model_checking", "every schedule (message consumption order, send order, script completion) of every graph within bounds, reduced mode plus exact mode with queue capacities 1..3: every terminal state exited 0 or is legitimately parked under a requested service", "virtual processes; the ten replicated wiring lines of main.rs; fan-out order ascending/descending only", MC, "§6 C04"),
+ "C04": (E1, "model_checking", "every schedule (message consumption order, send order, script completion) of every graph within bounds, reduced mode plus exact mode with queue capacities 1..3: the phase configurations with the real incremental runner (termination reaching a build outside its script phase) included; every terminal state exited 0 or is legitimately parked under a requested service", "virtual processes; the ten replicated wiring lines of main.rs; fan-out order ascending/descending only", MC, "§6 C04"),
  "C07": (E1, "model_checking", "every schedule x every subset of failing builds x unlaunchable leaves: no dependent of a failed target starts, the one-shot result is Err naming a failed target, watch mode keeps relaying and never acknowledges a failed execution", "virtual processes with harness-chosen exit status", MC, "§6 C07"),
  "C08": (E1, "model_checking", "every schedule of every graph <=3 targets x requested lists with duplicates/dependency+dependent: starts per target <=1 always and =1 on success", "closure scope outside the engine (ir.rs/main.rs) is C09's and binbox's part", MC, "§6 C08"),
  "C10": (E1, "model_checking", "exact mode: signal (arrival and consumption separated) or failure injected at every reachable state, afterwards no script ends by itself: every maximal path ends with run+terminate finished and every child killed-or-exited and reaped", "virtual processes: kill() ends the child at once; real signal delivery is binbox's part", MC, "§6 C10"),
@@ -16,14 +16,14 @@ T = {
  "C17": (E1, "model_checking", "for every target X the restricted system where nothing outside deps*(X) ever finishes: X starts on every maximal path; every independent pair has a reachable state with both in progress", "virtual processes", MC, "§6 C17"),
  "C20": (E1, "model_checking", "for every graph with an aggregate root: equality of the sets of terminal observations of request [A] and request deps(A), over all schedules, incl. failing builds", "observations = executed leaves, result class, liveness", MC, "§6 C20"),
  "C02": (E2, "model_checking", "all histories of <=2 (3) file-system operations between runs x resource declarations, real incremental runner vs reference record model: Skipped only when the reference allows it", "tmpfs scratch trees, explicit mtimes", BE, "§6 C02"),
- "C03": (E2, "model_checking", "all project layouts of the alphabet x invocation sequences over an untouched tree: a target with inputs and a stored state is skipped, a target without input always runs", "tmpfs scratch trees", BE, "§6 C03"),
+ "C03": (E2, "model_checking", "all project layouts of the alphabet x invocation sequences over an untouched tree: a target with inputs and a stored state is skipped, a target without input always runs; plus every schedule of the build-cycle phase configurations (signal / sibling failure at every state): a script that ended with status 0 is on record when zinoma has exited", "tmpfs scratch trees; phase configurations run the real engine under the controlled executor", BE, "§6 C03"),
  "C05": (E2, "fault_enumeration", "every crash point of the build cycle, every prefix of the state write, byte corruptions x4 values at every offset, foreign files, every exit status: the next invocation never skips and never errs/panics/aborts", "crash = future never polled again and forgotten; subprocess isolation for aborts", "exhaustive crash-point and corruption enumeration on the real write/read path", "§6 C05"),
  "C06": (E1, "model_checking", "watch mode with the real incremental runner on real files and a virtual watcher: every schedule x every placement of <=2 (3) input changes; at quiescence outputs = f(current inputs)", "script effect read-at-start/write-at-end; watcher membership by the reference predicate", MC, "§6 C06"),
  "C09": (E2, "model_checking", "all digraphs <=3 nodes (cycles, self-loops, unknown references) x edge kind x node kind x project split x spelling x requested subset vs independent closure/cycle/kind computation", "in-memory yaml::Config values plus real-file pass for <=2 nodes", BE, "§6 C09"),
  "C12": (E3, "model_checking", "all file trees over the entry alphabet x output declarations x request modes against the real binary: full tree snapshot before/after vs independently computed deletion set", "real binary, tmpfs", BE, "§6 C12"),
  "C13": (E2, "model_checking", "producer/consumer layouts over 1-2 projects x edit histories <=2 of producer outputs: resolver output and rerun-iff-changed behaviour", "tmpfs", BE, "§6 C13"),
  "C14": (E2, "model_checking", "all documents of a bounded YAML grammar, all 1-byte deletions/truncations/insertions of seed documents, all import arrangements <=3 projects: never panic, strictness rules, project names injective", "subprocess isolation", BE, "§6 C14"),
- "C15": (E2, "model_checking", "all trees over the name/type alphabet x paths/extensions declarations: real lister vs independent walker", "symlinked files and files named .zinoma are don't-care", BE, "§6 C15"),
+ "C15": (E2, "model_checking", "all trees over the name/type alphabet x paths/extensions declarations: real lister vs independent walker", "a symlink to a regular file denotes that file; a declared path that is itself a symlink and files named .zinoma are don't-care", BE, "§6 C15"),
  "C16": (E2, "model_checking", "every name of the alphabet x {create,modify,rename,delete}, sequences <=2, through a real inotify watcher with an ordered sentinel: trigger iff reference predicate, watcher survives", "tmpfs inotify; ordering by sentinel not by time", BE, "§6 C16"),
  "C18": (E3, "model_checking", "all invocation sequences <=3 over differently rooted/flagged invocations of the real binary: final skip/build decision = reference (own resources + own last success)", "real binary", BE, "§6 C18"),
  "C19": (E2, "model_checking", "all project sets with overlapping names x every spelling of requests and references: resolved identity; both spellings run once", "in-crate resolver + real binary traces", BE, "§6 C19"),
